@@ -527,6 +527,7 @@ def run(M, rec, tier, seed, k, n):
         if it % 4 == 0:
             symbolic_turn_rates(M, rec, rng, g, ("SX", "MX")[(it // 4) % 2])
     networks_sharing_nodes(M, rec, rng, 40 if tier == "quick" else 400)
+    W.complex_step_turn_rates(M, rec, rng, PROP, 30 if tier == "quick" else 300, "shares")
 
 
 def finish(M, rec, write=True):
